@@ -1,6 +1,7 @@
 // vsim.cpp — see vsim.h and DESIGN.md 2.4.
 #include "vsim.h"
 
+#include <dlfcn.h>
 #include <errno.h>
 #include <pthread.h>
 #include <stdio.h>
@@ -55,6 +56,24 @@ static bool g_has_err = false;
 static uint64_t g_edge_a = 0, g_edge_b = 0;
 static uint64_t g_edges = 0;
 int (*choose_waiter)(int n) = nullptr;
+
+// AddressSanitizer intercepts swapcontext and clears the shadow of a whole stack on every call
+// (one mmap + two madvise per switch for 512 KiB stacks: >80 % of the run time).  The fibers are
+// announced to ASan through __sanitizer_start/finish_switch_fiber and their stacks are unpoisoned
+// when recycled, so the plain libc function is what is wanted here.
+typedef int (*swap_fn)(ucontext_t*, const ucontext_t*);
+static swap_fn
+real_swapcontext()
+{
+    static swap_fn f = nullptr;
+    if (!f) {
+        f = (swap_fn)dlsym(RTLD_NEXT, "swapcontext");
+        if (!f)
+            f = &swapcontext;
+    }
+    return f;
+}
+#define swapcontext(a, b) (real_swapcontext()((a), (b)))
 
 static void
 set_err(const char* what, const void* obj)
